@@ -259,11 +259,19 @@ def check_case(case: dict, rng: random.Random, max_exhaustive: int) -> Tuple[Opt
         pass
     # ---- (a3) what a call returns is the caller's to keep: editing a returned payload in place (appending to its
     # lists, adding to its dicts and sets, at any depth) changes neither the validator nor what it returns next for an
-    # equal input.  (Skipped when a NamedTuple class has a mutable default: Python itself shares that object between
-    # all instances built without the field.)  real code only
+    # equal input.  (Skipped when a class has a default that is, or holds, a mutable container and is not produced by a
+    # factory: Python itself shares that object between all instances built without the field.)  real code only
     try:
-        shared_by_python = any(c.get("kind") == 2 and any(d is not None and "oid" in d for _, d in c.get("fields", []))
-                               for c in case.get("classes", []))
+        def _shared(c: dict) -> bool:
+            for _, d in c.get("fields", []):
+                if d is None or '"oid"' not in json.dumps(d):
+                    continue
+                if c.get("kind") == 2:
+                    return True                      # a NamedTuple default is one object for all instances
+                if c.get("kind") == 1 and not (d.get("t") in ("list", "dict", "set") or c.get("id", 0) % 2 == 1):
+                    return True                      # a dataclass `default=` (not a factory) holding a container inside
+            return False
+        shared_by_python = any(_shared(c) for c in case.get("classes", []))
         if not shared_by_python:
             c4 = wire.Ctx()
             c4.cls_by_id, c4.cls_desc, c4.oid = ctx.cls_by_id, ctx.cls_desc, ctx.oid
@@ -278,7 +286,10 @@ def check_case(case: dict, rng: random.Random, max_exhaustive: int) -> Tuple[Opt
                 if snap(v4) != snap4:
                     fails.append(f"history call {i}: editing the returned payload in place changed the validator's configuration")
                     break
-                r2 = solo(v4, wire.mk_value(c4, xd))[0]
+                # (an equal input, built anew: the first one may share objects with the payload that was edited)
+                c5 = wire.Ctx()
+                c5.cls_by_id, c5.cls_desc = c4.cls_by_id, c4.cls_desc
+                r2 = solo(v4, wire.mk_value(c5, xd))[0]
                 if wire.normalise(props.strip_ids(canon_res(c4, r2))) != want:
                     fails.append(f"history call {i}: after the caller edited the returned payload in place, an equal input "
                                  f"gets a different result")
